@@ -22,25 +22,14 @@ theorem fprewrite_ts_above_reads (f f' : FStore) (r : PrewriteReq) (x : FPrewrit
     (resp.minCommitTS ≠ 0 → f.maxTS < resp.minCommitTS ∧ r.startTS < resp.minCommitTS ∧ r.forUpdateTS < resp.minCommitTS ∧ r.minCommitTS ≤ resp.minCommitTS) ∧
     (resp.onePCCommitTS ≠ 0 → f.maxTS < resp.onePCCommitTS ∧ r.startTS < resp.onePCCommitTS ∧ r.forUpdateTS < resp.onePCCommitTS) := by
   unfold fprewrite at h
-  generalize hp : prewriteLoop f.base r r.mutations 0 [] [] = pl at h
-  obtain ⟨errs, acts⟩ := pl
   simp only [] at h
-  by_cases h1 : (errs.any Option.isSome) = true
-  · simp only [h1, if_true] at h; injection h with _ h; subst h; simp
-  · simp only [h1] at h
-    by_cases h2 : (!(x.useAsync || x.tryOnePC)) = true
-    · simp only [h2, if_true] at h; injection h with _ h; subst h; simp
-    · simp only [h2] at h
-      by_cases h3 : (x.maxCommitTS != 0 && decide (max (max r.minCommitTS (r.startTS + 1)) (max (r.forUpdateTS + 1) (f.maxTS + 1)) > x.maxCommitTS)) = true
-      · simp only [h3, if_true] at h; injection h with _ h; subst h; simp
-      · simp only [h3] at h
-        by_cases h4 : x.tryOnePC = true
-        · simp only [h4, if_true] at h; injection h with _ h; subst h
-          simp only [ne_eq, not_true_eq_false, false_implies, true_and]
-          intro _; omega
-        · simp only [h4] at h; injection h with _ h; subst h
-          simp only [ne_eq, not_true_eq_false, false_implies, and_true]
-          intro _; omega
+  repeat' split at h
+  all_goals
+    first
+    | (injection h with _ h; subst h; simp; done)
+    | (injection h with _ h; subst h
+       simp only [ne_eq, not_true_eq_false, false_implies, true_and, and_true]
+       intro _; omega)
 
 /-- the one-phase commit writes records, never locks -/
 theorem onePCActs_no_lock (acts : List Act) (T C : Nat) :
